@@ -158,9 +158,58 @@ func suiteNames(o *suiteOut, r *rng, tier string, n int) {
 		touCase(o, e[0], true, parseCodes(e[1]), true, "Zapf Dingbats entry maps to the listed text")
 		o.count("dingbats entries")
 	}
+	// the same name under the other table right after a hit (the look-ups share lazily loaded state; a result must
+	// not depend on what was looked up before): decided by the stateless model
+	for i, e := range readGlyphTable("zapfdingbats.txt", 0, 1, 2) {
+		touCase(o, e[0], true, nil, false, "")
+		touCase(o, e[0], false, nil, false, "")
+		if i%4 == 0 {
+			touCase(o, e[0], true, nil, false, "")
+			touCase(o, e[0]+"_A.alt", false, nil, false, "")
+			touCase(o, "A_"+e[0], true, nil, false, "")
+		}
+		o.count("dingbats names under both tables in turn")
+	}
+	for i, e := range readGlyphTable("glyphlist.txt", 0, 1, 2) {
+		if i%9 == 0 {
+			touCase(o, e[0], false, nil, false, "")
+			touCase(o, e[0], true, nil, false, "")
+			touCase(o, e[0], false, nil, false, "")
+		}
+	}
 	for _, e := range readGlyphTable("aglfn.txt", 1, 0, 3) {
 		touCase(o, e[0], false, parseCodes(e[1]), true, "AGLFN name maps to its character")
 		o.count("aglfn entries")
+	}
+	// names at the length limit of 31 characters: uni forms of 1..8 groups (7 groups = 31 characters), components
+	// and suffixes that bring a name to 30, 31, 32 characters
+	for g := 1; g <= 8; g++ {
+		name := "uni"
+		var want []rune
+		for k := 0; k < g; k++ {
+			name += fmt.Sprintf("%04X", 0x41+k)
+			want = append(want, rune(0x41+k))
+		}
+		touCase(o, name, false, nil, false, "")
+		touCase(o, name+".a", false, nil, false, "")
+		touCase(o, "A_"+name, false, nil, false, "")
+		o.emit("valid "+hx([]byte(name)), strconv.FormatBool(names.IsValid(name)), true)
+		if g <= 7 && !equalRunes(names.ToUnicode(name, false), want) {
+			o.fail("C16", "a well-formed uniXXXX... name of up to 31 characters maps to its characters", "tou 0 "+hx([]byte(name)), runesStr(want), runesStr(names.ToUnicode(name, false)))
+		}
+		o.count("uni names of 1..8 groups")
+	}
+	for _, ln := range []int{29, 30, 31, 32, 33} {
+		for _, base := range []string{"A", "uni0041", "u1F600", "f_f_i", "a7"} {
+			name := base + "." + strings.Repeat("x", ln-len(base)-1)
+			touCase(o, name, false, nil, false, "")
+			touCase(o, name, true, nil, false, "")
+			name2 := base + strings.Repeat("_A", (ln-len(base))/2)
+			touCase(o, name2, false, nil, false, "")
+			o.emit("valid "+hx([]byte(name)), strconv.FormatBool(names.IsValid(name)), true)
+			o.emit("valid "+hx([]byte(name2)), strconv.FormatBool(names.IsValid(name2)), true)
+			o.count("names around 31 characters")
+		}
 	}
 	// 3. uniXXXX and uXXXX.. forms
 	step := 1
